@@ -213,3 +213,98 @@ def _partition(c):
 
 
 Lemma('C18', 'round_robin_partition', _partition, doc='exists! (rank, position) with index = rank + size*position')
+
+
+# ------------------------------------------------------------------ generate_profiles.sample_iter: the round-robin share of one rank
+from pyvc.unit import GenTrace
+from pyvc.engine import AbsObj
+from pyvc.core import PyList, Ref
+
+OPT = 'taurex.optimizer.optimizer:Optimizer.'
+
+
+def _si_params(c):
+    N, size, rank = c.choice('N'), c.choice('size'), c.choice('rank')
+    samples = [(('params', i), c.real('w%d' % i)) for i in range(N)]
+    return dict(self=ObjSpec('Optimizer'), sample_list=samples, rank=rank, size=size)
+
+
+def _h_um(ex, st, args, kwargs, node):
+    st.trace.append(('ev', ('update_model', args[1])))
+    return None
+
+
+def _noop(ex, st, args, kwargs, node):
+    return None
+
+
+def _si_yields(c, v0, v, k, val):
+    """the k-th weight yielded on this rank is that of sample rank + k*size, and the model was updated with exactly that
+    sample's parameters immediately before"""
+    N, size, rank = (c.fixed['N'], c.fixed['size'], c.fixed['rank']) if c.mode != 'conc' else (c.values['N'], c.values['size'], c.values['rank'])
+    i = rank + k * size
+    if i >= N:
+        return {'no_more_than_its_share': False}
+    return {'weight_of_its_own_sample': c.Eq(val, v0.sample_list[i][1])}
+
+
+def _si_post(c, v0, v1, r):
+    N, size, rank = (c.fixed['N'], c.fixed['size'], c.fixed['rank']) if c.mode != 'conc' else (c.values['N'], c.values['size'], c.values['rank'])
+    mine = list(range(rank, N, size))
+    ups = [e[1] for e in (c.trace or []) if e[0] == 'update_model']
+    return {'one_yield_per_sample_of_this_rank': len(r) == len(mine),
+            'model_updated_once_per_sample_in_order': [tuple(u) if isinstance(u, (tuple, list)) else u for u in ups] == [('params', i) for i in mine]}
+
+
+def _si_native(c, p):
+    import taurex.mpi as mpi
+    import taurex.optimizer.optimizer as mod
+    from taurex.optimizer.optimizer import Optimizer
+    N, size, rank = c.values['N'], c.values['size'], c.values['rank']
+    trace = []
+    got = {}
+
+    class _O(Optimizer):
+        def sample_parameters(self, solution):
+            return iter([(('params', i), p['sample_list'][i][1]) for i in range(N)])
+
+        def update_model(self, v):
+            trace.append(('update_model', tuple(v)))
+    o = _O.__new__(_O)
+    for nm in ('debug', 'info', 'warning', 'error', 'critical'):
+        setattr(o, nm, lambda *a, **k: None)
+
+    def compute_error(it, wngrid=None, binner=None):
+        got['weights'] = list(it())
+        return {}, {}
+
+    class _M:
+        pass
+    o._model = _M()
+    o._model.compute_error = compute_error
+    o._binner = None
+    saved = (mpi.get_rank, mpi.nprocs, mpi.broadcast)
+    mpi.get_rank, mpi.nprocs, mpi.broadcast = (lambda: rank), (lambda: size), (lambda x, rank=0: x if x is not None else [(('params', i), p['sample_list'][i][1]) for i in range(N)])
+    try:
+        o.generate_profiles(0, None)
+    finally:
+        mpi.get_rank, mpi.nprocs, mpi.broadcast = saved
+    vals = got.get('weights', [])
+    return GenTrace(vals, [p] * len(vals)), dict(p, __trace__=trace)
+
+
+_SI_CASES = [dict(N=n, size=s, rank=r) for n in range(0, 7) for s in (1, 2, 3, 4) for r in range(s)]
+
+
+def _si_gen(rng):
+    d = dict(rng.choice(_SI_CASES))
+    for i in range(7):
+        d['w%d' % i] = rng.uniform(0.1, 1)
+    return d
+
+
+SI = Unit('C18', OPT + 'generate_profiles.sample_iter', _si_params, yields=_si_yields, post=_si_post, cases=_SI_CASES, bounds=[{}],
+          abstract={'call:update_model': _h_um, 'call:enableLogging': _noop, 'call:disableLogging': _noop}, native=_si_native, gen=_si_gen,
+          short='Optimizer.generate_profiles.sample_iter',
+          doc='the iterator handed to compute_error on one rank processes exactly the samples rank, rank+size, ... in order (0..6 samples, '
+              '1..4 ranks, every rank); with lemma round_robin_partition every sample is processed exactly once over all ranks')
